@@ -46,22 +46,22 @@ def step : List String → String
   | ["sig_parse", h] => match parseHex h with
     | some b => resLine (fun x => s!"{x.r},{x.s},{x.curve.name}") (sigParse b) | none => "bad-op"
   | ["sig_export", r, s, c, e] => match parseNat r, parseNat s, Curve.ofName c, parseEnc e with
-    | some r, some s, some c, some e => resLine hexOrDash (sigExport ⟨r, s, c⟩ e) | _, _, _, _ => "bad-op"
+    | some r, some s, some c, some e => resLine toHex (sigExport ⟨r, s, c⟩ e) | _, _, _, _ => "bad-op"
   | ["serialize", h, cl] => match parseHex h, parseNat cl with
-    | some b, some cl => resLine hexOrDash (serializeSignature b cl) | _, _ => "bad-op"
+    | some b, some cl => resLine toHex (serializeSignature b cl) | _, _ => "bad-op"
   | ["verify_cands", c, h] => match Curve.ofName c, parseHex h with
     | some c, some b => "ok:" ++ ",".intercalate ((verifyCandidates c b).map hexOrDash) | _, _ => "bad-op"
   | ["get_signature", h, e] => match parseHex h with
     | some b =>
-      if e == "none" then resLine hexOrDash (getSignature b none)
-      else (match parseEnc e with | some e => resLine hexOrDash (getSignature b (some e)) | none => "bad-op")
+      if e == "none" then resLine toHex (getSignature b none)
+      else (match parseEnc e with | some e => resLine toHex (getSignature b (some e)) | none => "bad-op")
     | none => "bad-op"
   | ["rsa_export", n, e, el, ml] => match parseNat n, parseNat e, parseNat el, parseNat ml with
-    | some n, some e, some el, some ml => resLine hexOrDash (rsaExportNxp n e el ml) | _, _, _, _ => "bad-op"
+    | some n, some e, some el, some ml => resLine toHex (rsaExportNxp n e el ml) | _, _, _, _ => "bad-op"
   | ["rsa_numbers", h] => match parseHex h with
     | some b => resLine (fun p => s!"{p.1},{p.2}") (rsaRecreateNumbers b) | none => "bad-op"
   | ["ecc_export", c, x, y] => match Curve.ofName c, parseNat x, parseNat y with
-    | some c, some x, some y => resLine hexOrDash (eccExportNxp c x y) | _, _, _ => "bad-op"
+    | some c, some x, some y => resLine toHex (eccExportNxp c x y) | _, _, _ => "bad-op"
   | ["ecc_get_curve", n, c] => match parseNat n, parseCurveOpt c with
     | some n, some c => resLine (fun p => s!"{p.1.name},{boolStr p.2}") (eccGetCurve n c) | _, _ => "bad-op"
   | ["file_enc", h] => match parseHex h with
